@@ -14,16 +14,20 @@ META = {
             'suffix match, default pass; the iterative matcher of the code (wildcardMatch, transcribed as glob_iter) terminates within '
             'its fuel and is sound and complete w.r.t. a declarative glob relation and the '
             'decomposition along the stars (every other character literal); ";" and newline are interchangeable; rejected '
-            'lines contribute nothing; typed rules never affect other types, fatal is decided by untyped rules only. They are '
+            'lines contribute nothing; typed rules never affect other types, fatal is decided by untyped rules only; ONE filter object '
+            'answering a history of messages (address of the category name, name text, type) answers each with the specified verdict of its own '
+            'name text and type - independent of the history and of the address, also when consecutive different names share one address. They are '
             're-checked on every run against the constants translated from categoryfilter.cpp/logmessage.h, and the extracted '
-            'model and specification are run against the real CategoryFilter on generated and exhaustively enumerated rule texts.',
+            'model and specification are run against the real CategoryFilter on generated and exhaustively enumerated rule texts, and the object '
+            'model against one real object per rule text on generated histories with adversarial storage of the category names '
+            '(one reused buffer, recycled heap blocks, LogMessage copies).',
     'note': 'Trusted: Coq 8.16.1 kernel (vm_compute only for the closed configuration check and the example), no axioms; '
             'tools/s2c/category.py (regex translation of categoryfilter.cpp and of the stringToQtMsgType table), extraction '
             '(ExtrOcamlBasic only) and ocaml/drv_category.ml, harness/h_category.cpp (also offers Qt own QLoggingCategory as a cross-check on the rule subset Qt supports). '
             'Modelled, not verified: '
             'QRegularExpression/PCRE2 for the LINE regex only (modelled as: last "=", ASCII \\s trimming, lazy name + optional suffix), '
             'QString::replace/split/at/size (lists of UTF-16 code units; the indices p,t,star,mark of wildcardMatch are represented by list '
-            'suffixes), QString::fromUtf8 of the category. Outside the model: ill-formed UTF-16 in rules (lone surrogates), NUL in rule names.',
+            'suffixes), QString::fromUtf8 of the category. The object model has no state besides the rule list: the translator pins that CategoryFilter has the one data member m_rules, no mutable member and no writable static. Outside the model: ill-formed UTF-16 in rules (lone surrogates), NUL in rule names.',
     'design_ref': 'DESIGN.md section 4, C15',
     'engine': 'coq+extraction+harness',
 }
@@ -400,18 +404,61 @@ def run_oracle(model, cases, verdicts):
     return vlib.run_lines(model, lines, ['oracle'])[1]
 
 
-def gen_queries(rng, ncats):
-    """all (category index, type index) pairs in random order, about a third of them asked again later"""
-    qs = [(ci, ti) for ci in range(ncats) for ti in range(5)]
-    rng.shuffle(qs)
-    for q in list(qs):
-        if rng.random() < 0.35:
-            qs.insert(rng.randint(0, len(qs)), q)
+STORAGE = ['', 'B/', 'B/', 'S/', 'H/', 'C/', 'C/']      # where the harness keeps the category names (h_category.cpp)
+STORAGE_NAME = {'': 'own_address_per_name', 'B/': 'one_reused_buffer', 'S/': 'one_reused_buffer_scribbled_after_each_query',
+                'H/': 'malloc_per_query_freed_after', 'C/': 'logmessage_copy_destroyed_after'}
+
+
+def gen_queries(rng, ncats, qhist=None):
+    """a history of (category index, type index) queries for one filter object.
+    shuffle    : all pairs in random order, about a third of them asked again later;
+    type_bursts: type after type (random order), under each all categories in random order - consecutive
+                 messages of the SAME type with DIFFERENT names (what a burst from several categories looks like);
+    walk       : random pairs, the type kept from the previous query half of the time, the category a quarter."""
+    k = rng.random()
+    if k < 0.4:
+        shape = 'shuffle'
+        qs = [(ci, ti) for ci in range(ncats) for ti in range(5)]
+        rng.shuffle(qs)
+        for q in list(qs):
+            if rng.random() < 0.35:
+                qs.insert(rng.randint(0, len(qs)), q)
+    elif k < 0.75:
+        shape = 'type_bursts'
+        qs = []
+        for ti in rng.sample(range(5), 5) + [rng.randrange(5), rng.randrange(5)]:
+            order = list(range(ncats))
+            rng.shuffle(order)
+            if rng.random() < 0.3 and order:
+                order.insert(rng.randint(0, len(order)), rng.choice(order))
+            qs += [(ci, ti) for ci in order]
+    else:
+        shape = 'walk'
+        qs = []
+        ci, ti = rng.randrange(ncats), rng.randrange(5)
+        for _ in range(int(6.5 * ncats)):
+            if rng.random() >= 0.5:
+                ti = rng.randrange(5)
+            if rng.random() >= 0.25:
+                ci = rng.randrange(ncats)
+            qs.append((ci, ti))
+    if qhist is not None:
+        qhist['history_' + shape] += 1
     return qs
 
 
-def seq_line(rules, cats, queries):
-    return line_of((rules, cats)) + ' ' + ','.join('%d:%d' % q for q in queries)
+def seq_line(rules, cats, queries, storage=''):
+    return line_of((rules, cats)) + ' ' + storage + ','.join('%d:%d' % q for q in queries)
+
+
+def split_seq_output(v, storage, n):
+    """harness answer to a history line -> (verdict string, same-address flags); '?' * n when malformed"""
+    flags = '.' * n
+    if storage:
+        v, _, flags = v.partition(' ')
+        if len(flags) != n:
+            flags = '?' * n
+    return (v if re.fullmatch('[01]{%d}' % n, v) else '?' * n), flags
 
 
 def well_formed(case, v):
@@ -428,7 +475,7 @@ def run():
     chk = vlib.Check('C15')
     chk.trusted = ['Coq 8.16.1 kernel; vm_compute only on the closed terms cfg_goodb src_cfg and the non-vacuity example; no native_compute',
                    'axioms: none (every Print Assumptions: Closed under the global context)',
-                   'tools/s2c/category.py translator (categoryfilter.cpp, logmessage.h -> SrcCategory.v)',
+                   'tools/s2c/category.py translator (categoryfilter.cpp, categoryfilter.h, logmessage.h -> SrcCategory.v)',
                    'extraction ExtrOcamlBasic (bool/option/unit/prod/list/sumbool), no Extract Constant; ocaml/drv_category.ml',
                    'harness/h_category.cpp; QRegularExpression/PCRE2, QString::replace/split/fromUtf8 are modelled, not verified']
     chk.assumptions = ['rule text and category are well-formed UTF-16/UTF-8 (no lone surrogates) and the category has no NUL (it is a C string)',
@@ -571,39 +618,82 @@ def run():
                   'e.g. rules %r category %r: implementation %s model %s' % (len(dis_model), r, c, x, y),
                   {'kind': 'correspondence', 'rules': r, 'category': c, 'implementation_verdicts': x, 'model_verdicts': y})
 
-    # ---- one filter object per rule text, the (category, type) queries in random order with repetitions:
-    # a verdict must not depend on what the object was asked before
+    # ---- one filter object per rule text answering a HISTORY of messages: the (category, type) queries in random
+    # order with repetitions / in bursts of one type, the category names kept where an adversarial but legal caller
+    # keeps them (one reused buffer, recycled heap blocks, LogMessage copies).  A verdict must depend neither on
+    # what the object was asked before nor on the address of the name.
     seq_cases = cases[:n_fixed:7] + cases[n_fixed:]
-    seqs = [gen_queries(rng, len(c[1])) for c in seq_cases]
-    slines = [seq_line(c[0], c[1], q) for c, q in zip(seq_cases, seqs)]
+    qhist = collections.Counter()
+    seqs = [gen_queries(rng, len(c[1]), qhist) for c in seq_cases]
+    stor = [rng.choice(STORAGE) for _ in seq_cases]
+    slines = [seq_line(c[0], c[1], q, st) for c, q, st in zip(seq_cases, seqs, stor)]
     rcs, out_s, err_s = vlib.run_lines(impl, slines)
     out_s = out_s + [''] * (len(slines) - len(out_s))
-    out_s = [v if re.fullmatch('[01]{%d}' % len(q), v) else '?' * len(q) for v, q in zip(out_s, seqs)]
-    marks_s = vlib.run_lines(model, [l + ' ' + v for l, v in zip(slines, out_s)], ['oracle'])[1]
-    marks_s += [''] * (len(slines) - len(marks_s))
+    split = [split_seq_output(v, st, len(q)) for v, st, q in zip(out_s, stor, seqs)]
+    out_s, flags_s = [a for a, _ in split], [b for _, b in split]
+    marks_raw = vlib.run_lines(model, [l + ' ' + v for l, v in zip(slines, out_s)], ['oracle'])[1]
+    marks_raw += [''] * (len(slines) - len(marks_raw))
+    marks_s, whole_s = [m.partition(' ')[0] for m in marks_raw], [m.partition(' ')[2] for m in marks_raw]
+    model_s = vlib.run_lines(model, slines, ['model'], timeout=900 if thorough else 90)[1]
+    model_s += [''] * (len(slines) - len(model_s))
     seq_queries = sum(len(q) for q in seqs)
-    seq_bad, seq_inconsistent = [], 0
-    for c, q, v, mk in zip(seq_cases, seqs, out_s, marks_s):
+    seq_bad, seq_inconsistent, seq_dis, oracle_mismatch = [], 0, [], 0
+    addr_hist = collections.Counter()
+    for c, q, st, v, fl, mk, wh, mo in zip(seq_cases, seqs, stor, out_s, flags_s, marks_s, whole_s, model_s):
         first = {}
         for k, pair in enumerate(q):
             if first.setdefault(pair, v[k]) != v[k]:
                 seq_inconsistent += 1
-        if len(mk) != len(q) or '0' in mk:
-            seq_bad.append((c[0], c[1], q))
+        bad = len(mk) != len(q) or '0' in mk
+        if bad:
+            seq_bad.append((c[0], c[1], q, st))
+        if (wh == '1') == bad:             # prop_c15_seq_b must be the conjunction of the per-message marks (C15_history_oracle_pointwise)
+            oracle_mismatch += 1
+        if mo != v and mo != '':
+            seq_dis.append((c[0], c[1], q, st, v, mo))
+        addr_hist['objects_' + STORAGE_NAME[st]] += 1
+        if st:
+            for k in range(1, len(q)):
+                if fl[k] == '=':
+                    addr_hist['consecutive_other_name_same_address'] += 1
+                    if q[k][1] == q[k - 1][1]:
+                        addr_hist['...and_same_type'] += 1
+                        if len(mo) == len(q) and mo[k] != mo[k - 1]:
+                            # the pair on which a memo keyed by (address, type) gives the previous message's verdict
+                            addr_hist['...and_other_specified_verdict'] += 1
+                            addr_hist['...and_other_specified_verdict_' + STORAGE_NAME[st]] += 1
+                elif fl[k] == '+':
+                    addr_hist['consecutive_same_name_same_address'] += 1
+    if oracle_mismatch:
+        chk.broke('model driver: the history oracle prop_c15_seq_b and the per-message oracle prop_c15_b disagree on %d histories' % oracle_mismatch,
+                  {'kind': 'driver'})
+    for stn in ('B/', 'S/', 'H/', 'C/'):
+        if not addr_hist['...and_other_specified_verdict_' + STORAGE_NAME[stn]]:
+            chk.broke('history generator: no consecutive same-type messages with different specified verdicts at one address under storage %s '
+                      '(the allocator did not recycle the block, or the generator has gone constant)' % STORAGE_NAME[stn], {'kind': 'generator', 'storage': stn})
 
-    def seq_judge(rules, cats, queries):
+    def seq_judge(rules, cats, queries, storage=''):
         if not queries:
             return '', ''
-        l = seq_line(rules, cats, queries)
+        l = seq_line(rules, cats, queries, storage)
         o = vlib.run_lines(impl, [l])[1]
-        v = o[0] if o and re.fullmatch('[01]{%d}' % len(queries), o[0]) else '?' * len(queries)
+        v = split_seq_output(o[0] if o else '', storage, len(queries))[0]
         mk = vlib.run_lines(model, [l + ' ' + v], ['oracle'])[1]
-        return v, (mk[0] if mk else '')
+        return v, (mk[0].partition(' ')[0] if mk else '')
 
     if seq_bad and not falsified:
-        # the fixed-order pass found nothing: the failure needs a particular query history
-        rules, cats, queries = min(seq_bad, key=lambda f: (len(f[2]), len(f[0])))
-        bad = lambda r, cs, qs: '0' in seq_judge(r, cs, qs)[1]
+        # the fixed-order pass found nothing: the failure needs a particular history / storage of the names
+        # the reused-buffer storages first: they do not depend on what the allocator does, so the replay is deterministic
+        order = lambda f: (f[3] in ('H/', 'C/'), len(f[2]), len(f[0]))
+        rules, cats, queries, storage = min(seq_bad, key=order)
+        bad = lambda r, cs, qs: '0' in seq_judge(r, cs, qs, storage)[1]
+        if not bad(rules, cats, queries):
+            # not reproducible in isolation (the heap modes depend on the allocator): try the other failing histories
+            for cand in sorted(seq_bad, key=order)[:40]:
+                storage = cand[3]
+                if bad(cand[0], cand[1], cand[2]):
+                    rules, cats, queries = cand[0], cand[1], cand[2]
+                    break
         queries = vlib.shrink_list(queries, lambda qs: bad(rules, cats, qs), max_steps=200)
         used = sorted({ci for ci, _ in queries})
         cats = [cats[ci] for ci in used]
@@ -612,20 +702,34 @@ def run():
         rules = ''.join(vlib.shrink_list(list(rules), lambda rs: bad(''.join(rs), cats, queries), max_steps=200))
         for i in range(len(cats)):
             cats[i] = ''.join(vlib.shrink_list(list(cats[i]), lambda cs: bad(rules, cats[:i] + [''.join(cs)] + cats[i + 1:], queries), max_steps=80))
-        v, mk = seq_judge(rules, cats, queries)
+        v, mk = seq_judge(rules, cats, queries, storage)
         k = mk.index('0') if '0' in mk else len(queries) - 1
         ci, ti = queries[k]
-        alone_v, alone_mk = seq_judge(rules, cats, [queries[k]])
+        alone_v, alone_mk = seq_judge(rules, cats, [queries[k]], storage)
+        plain_v, plain_mk = seq_judge(rules, cats, queries, '')
         kind = 'order_dependent' if alone_mk == '1' else 'verdict'
-        spec_seq = vlib.run_lines(model, [seq_line(rules, cats, queries)], ['spec'])[1]
+        spec_seq = vlib.run_lines(model, [seq_line(rules, cats, queries, storage)], ['spec'])[1]
+        rep = {'kind': kind, 'rules': rules, 'categories': cats, 'rules_hex_utf16': hx(rules),
+               'query_sequence': [{'category': cats[a], 'type': TYPES[b], 'implementation': v[n], 'specified': (spec_seq[0][n] if spec_seq else '?')}
+                                  for n, (a, b) in enumerate(queries)],
+               'queries': ['%d:%d' % q for q in queries], 'failing_query_index': k,
+               'storage': storage, 'category_names_stored_in': STORAGE_NAME[storage],
+               'same_query_on_a_fresh_object': alone_v, 'histories_with_a_falsified_answer': len(seq_bad)}
+        where = ''
+        if storage:
+            rep['same_history_with_every_name_at_its_own_address'] = plain_v
+            if kind == 'order_dependent' and '0' not in plain_mk:
+                rep['class'] = 'address_reuse'
+                where = ' (the category names of consecutive messages share one address: %s; with every name at its own address the same history is answered as specified)' % STORAGE_NAME[storage]
         chk.fail('one CategoryFilter(%r) object: query #%d (category %r, type %s) is answered %s after the earlier queries, %s on a fresh object; '
-                 'ordered rule evaluation prescribes %s' % (rules, k + 1, cats[ci], TYPES[ti], 'pass' if v[k] == '1' else 'drop',
-                                                           'pass' if alone_v == '1' else 'drop', 'drop' if v[k] == '1' else 'pass'),
-                 {'kind': kind, 'rules': rules, 'categories': cats, 'rules_hex_utf16': hx(rules),
-                  'query_sequence': [{'category': cats[a], 'type': TYPES[b], 'implementation': v[n], 'specified': (spec_seq[0][n] if spec_seq else '?')}
-                                     for n, (a, b) in enumerate(queries)],
-                  'queries': ['%d:%d' % q for q in queries], 'failing_query_index': k,
-                  'same_query_on_a_fresh_object': alone_v, 'histories_with_a_falsified_answer': len(seq_bad)}, kind=kind)
+                 'ordered rule evaluation prescribes %s%s' % (rules, k + 1, cats[ci], TYPES[ti], 'pass' if v[k] == '1' else 'drop',
+                                                           'pass' if alone_v == '1' else 'drop', 'drop' if v[k] == '1' else 'pass', where),
+                 rep, kind=kind)
+    if seq_dis and not seq_bad and not falsified:
+        r, cs, q, st, v, mo = min(seq_dis, key=lambda f: (len(f[2]), len(f[0])))
+        chk.broke('correspondence: object model (object_answers src_cfg) and one CategoryFilter object differ on %d histories' % len(seq_dis),
+                  {'kind': 'correspondence', 'rules': r, 'categories': cs, 'queries': ['%d:%d' % x for x in q], 'storage': st,
+                   'implementation_verdicts': v, 'model_verdicts': mo})
     if rcs != 0:
         chk.fail('implementation crashed while answering a query sequence', {'kind': 'crash', 'rc': rcs, 'stderr': err_s[-500:]}, kind='crash')
 
@@ -668,6 +772,19 @@ def run():
                     chk.fail('%s build of the harness %s' % (variant or 'null-category', 'crashed' if rc2 else 'gives other verdicts'),
                              {'kind': 'variant', 'variant': variant or 'nullptr_category', 'rc': rc2, 'stderr': e2[-800:],
                               'rules': sub[k][0], 'categories': sub[k][1]}, kind='variant')
+                if variant:
+                    # the histories with adversarial name storage as well (a memo that keeps a dangling name pointer and
+                    # reads through it is a use-after-free only the sanitizer build sees)
+                    nseq = min(len(slines), 6000)
+                    rc3, o3, e3 = vlib.run_lines(exe, slines[:nseq])
+                    o3 = o3 + [''] * (nseq - len(o3))
+                    d3 = [i for i in range(nseq) if split_seq_output(o3[i], stor[i], len(seqs[i]))[0] != out_s[i]]
+                    extra['variant_%s_history_differences' % variant] = len(d3)
+                    if rc3 != 0 or d3:
+                        i = d3[0] if d3 else min(len(o3), nseq) - 1
+                        chk.fail('%s build of the harness %s on a history of messages' % (variant, 'crashed' if rc3 else 'gives other answers'),
+                                 {'kind': 'variant', 'variant': variant, 'rc': rc3, 'stderr': e3[-800:], 'rules': seq_cases[i][0],
+                                  'categories': seq_cases[i][1], 'queries': ['%d:%d' % q for q in seqs[i]], 'storage': stor[i]}, kind='variant')
             except RuntimeError as e:
                 chk.broke('harness variant %s does not build: %s' % (variant, str(e)[-300:]), {'kind': 'build', 'variant': variant})
 
@@ -681,9 +798,15 @@ def run():
                     'corpus_cases': n_corpus, 'fixed_cases': n_fixed,
                     'disagreements_model_vs_impl': len(dis_model), 'oracle_evaluated_on_impl_verdicts': evaluations,
                     'oracle_falsified': len(falsified),
-                    'query_sequences': {'filter_objects': len(seq_cases), 'queries': seq_queries, 'repeated_queries': seq_queries - sum(5 * len(c[1]) for c in seq_cases),
+                    'query_sequences': {'filter_objects': len(seq_cases), 'queries': seq_queries,
                                         'objects_with_a_falsified_answer': len(seq_bad), 'answers_differing_from_the_first_answer_to_the_same_query': seq_inconsistent,
-                                        'rule': 'one CategoryFilter object per rule text; all (category, type) pairs in random order (chk.rng), ~35% asked again later; oracle on every answer'}, 'verdict_vector_histogram': dict(vec_hist),
+                                        'histories_where_object_model_and_implementation_differ': len(seq_dis),
+                                        'history_shape_histogram': dict(qhist), 'name_storage_and_address_reuse_histogram': dict(addr_hist),
+                                        'rule': 'one CategoryFilter object per rule text answering a history (chk.rng): all (category, type) pairs shuffled with ~35% asked again / '
+                                                'bursts of one type over all categories / random walk; the category names live at their own addresses, in ONE reused buffer '
+                                                '(optionally scribbled over after the query), in a malloc block freed after the query, or in the heap QByteArray of a LogMessage copy '
+                                                'destroyed after the query; per-message oracle prop_c15_b and history oracle prop_c15_seq_b on every answer, object model '
+                                                '(object_answers src_cfg) compared with the answers'}, 'verdict_vector_histogram': dict(vec_hist),
                     'accepted_lines_per_text_histogram': dict(parsed_hist), 'matching_rules_per_evaluation_histogram': dict(match_hist),
                     'line_parser_branch_histogram': dict(line_hist),
                     'python_reference_vs_impl_differences': py_diff,
@@ -712,9 +835,10 @@ def replay(path):
     model = vlib.build_model('category'); impl = vlib.build_harness('category')
     c = (rules, cats)
     if r.get('queries'):
-        l = line_of(c) + ' ' + ','.join(r['queries'])
+        l = line_of(c) + ' ' + r.get('storage', '') + ','.join(r['queries'])
         print('rules            %r' % rules)
         print('categories       %r' % cats)
+        print('category names stored in: %s' % STORAGE_NAME.get(r.get('storage', ''), '?'))
         print('queries (category index:type index, types debug warning critical fatal info)', ' '.join(r['queries']))
         print('implementation (one object, this order)  ', vlib.run_lines(impl, [l])[1])
         print('model / specification (order-independent)', vlib.run_lines(model, [l])[1], vlib.run_lines(model, [l], ['spec'])[1])
